@@ -612,7 +612,13 @@ pub fn run(ctx: &Ctx) {
     ctx.strided("roundtrip_grid", nt, ctx.pick(11, 1), |i| Some(ts[i as usize]), roundtrip_oracle);
     ctx.random("roundtrip_random", ctx.pick(40_000, 400_000), any_ts, roundtrip_oracle);
     ctx.random("order", ctx.pick(60_000, 600_000), || {
-        (any_ts(), any_ts(), any::<bool>(), (-12 * 60..=14 * 60i32)).prop_map(|(a, b, same_instant, m)| if same_instant { Pair { a, b: Ts { offset: m * 60, ..a } } } else { Pair { a, b } })
+        // 0: two independent instants; 1: one instant at two offsets; 2: the same second at two
+        // offsets with different fractions (1 ns, 1 us, 1 ms apart or arbitrary)
+        (any_ts(), any_ts(), 0u8..3, (-12 * 60..=14 * 60i32), prop_oneof![Just(1u32), Just(1_000), Just(1_000_000), 0u32..1_000_000_000]).prop_map(|(a, b, mode, m, frac)| match mode {
+            1 => Pair { a, b: Ts { offset: m * 60, ..a } },
+            2 => Pair { a, b: Ts { offset: m * 60, nanos: (a.nanos + frac) % 1_000_000_000, ..a } },
+            _ => Pair { a, b },
+        })
     }, order_oracle);
     {
         let lo = cal::days_from_civil(1, 1, 1);
